@@ -61,6 +61,13 @@ def bodyF (c : Cfg) : List (List Stmt) → List FStmt
 def framed (c : Cfg) (sections : List (List Stmt)) (trailer : List Stmt) : List FStmt :=
   wrap (emitsBlock c false) (bodyF c sections ++ stmtsF trailer)
 
+/-- the BEGIN / COMMIT markers of a framed script, in C18's token vocabulary -/
+def fmarkers : List FStmt → List Model.Txn.Tok
+  | [] => []
+  | .begin :: r => Model.Txn.Tok.begin :: fmarkers r
+  | .commit :: r => Model.Txn.Tok.commit :: fmarkers r
+  | .stmt _ :: r => fmarkers r
+
 section
 variable (q : Str → Bool)
 
